@@ -28,6 +28,10 @@ def contents(p):
         # scale: five bars (4/4 then 3/4), thirty notes on three channels
         "S6": dict(notes=lib.long_desc(30, p - 10, (0, 1, 9), 12, lens=(6, 12, 18, 30)),
                    events=[("ts", 0, 4, 4), ("ks", 0, "D"), ("ts", 192, 3, 4)], dur=408),
+        # scale: seventy notes (more than two hundred relative messages), cut near its start by split([20, 50])
+        "S7": dict(notes=lib.long_desc(70, p - 10, (0, 1, 9), 6, lens=(3, 5, 4, 9)), events=[("ks", 0, "D")], dur=450),
+        # one dense 4/4 bar: sixteen sixteenth notes on two channels, its time signature stated in the middle only
+        "S8": dict(notes=[(6 * k, 6, p + k % 4, k % 2, 30 + k) for k in range(16)], events=[("ts", 48, 4, 4)], dur=96),
     }
 
 
@@ -75,6 +79,9 @@ for _c in ("S1", "S3"):
         SEEDS.append(("bar_copy", _c, _f))
 for _route, _f in (("seq_copy", "R"), ("split", "A"), ("bars_nq", "A"), ("comp_copy", "R")):
     SEEDS.append((_route, "S6", _f))
+for _f in ("A", "R"):
+    SEEDS.append(("split", "S7", _f))
+    SEEDS.append(("bar_copy", "S8", _f))
 for _f in ("A", "R", "AR"):
     SEEDS.append(("track_copy", "S2", _f))
 SEEDS.append(("comp_copy", "S2", "A"))
@@ -214,6 +221,8 @@ def key_of(st, ctx):
 
 def enabled(st, seed_i, hist, ctx):
     ops = []
+    if SEEDS[seed_i][1] == "S7" and hist:
+        return ops          # the long split seed is explored to depth 1 (every operation on every side and target)
     if not hist:
         ops.append([1, 0, "check_derivation"])
     for side in (0, 1):
